@@ -189,6 +189,14 @@ impl ServerState {
             while let Ok(msg) = rx.recv() {
                 match msg {
                     TaskMessage::CompilationContext(ctx) => {
+                        // This request is the most recent one. A retrigger signal raised before it
+                        // was picked up was aimed at an earlier compilation; if it were left set,
+                        // this compilation would be cancelled at its first check although no newer
+                        // request is queued, and the latest edit would never be compiled.
+                        #[cfg(fuellabs_sway_verif)]
+                        crate::verif::point("W", "clr_rt0", 0);
+                        retrigger_compilation.store(false, Ordering::SeqCst);
+
                         let uri = &ctx.uri;
                         let path = uri.to_file_path().unwrap();
                         let mut engines_clone = ctx.engines.read().clone();
